@@ -18,7 +18,7 @@ CHECKS = {
                      "Trusted: sympy parsing/differentiation in the reference, lambdify(math). Real Cython compiles are sampled sparsely.",
                 ref="7 (C01)"),
     "C02": dict(engine="solver", tech="deterministic simulation (I-seam buffer-policy faults) + reference ODE solutions",
-                what="models x grids x entry points x methods x integrator buffer policies {native, fresh, reuse}",
+                what="models x grids (incl. integer dtype, fractional t0, long sparse gaps on oscillators) x entry points x methods x integrator buffer policies {native, fresh, reuse} x histories of re-bound parameters / initial values between solves on one object",
                 note="Observed through the I seam (identity of the integrator's output array is simulated; numerics are the real scipy "
                      "integrators). Reference: scipy solve_ivp DOP853/Radau at rtol=atol=1e-11, a different code path. Class B in DESIGN 1.",
                 ref="7 (C02)"),
@@ -38,7 +38,7 @@ CHECKS = {
                      "(linear chains, SIR final size). All acceptance regions exact binomial or Hoeffding, total alpha <= 1e-8.",
                 ref="7 (C05)"),
     "C06": dict(engine="solver", tech="deterministic simulation (shared-model clients interleaved, I-seam policies) + reference loss",
-                what="loss classes x observed-state selections x weights/spreads x theta, with other clients mutating the shared model between calls",
+                what="loss classes x observed-state selections x weights/spreads x theta (explicit or the stored one), with other clients mutating the shared model between calls",
                 note="Class B: a function of its input, observed on a shared mutable model under interleaving and integrator policies. "
                      "Reference: scipy.stats log-densities on solve_ivp solutions.",
                 ref="7 (C06)"),
@@ -46,17 +46,17 @@ CHECKS = {
                 what="loss classes x state/parameter selections and orders x methods",
                 note="Oracle is PyGOM's own cost (C06 pins that to the reference) differentiated numerically.", ref="7 (C07)"),
     "C08": dict(engine="session", tech="deterministic simulation of operation histories (mutators x observers x K-seam faults) vs fresh rebuild",
-                what="histories of modifications and evaluations up to a bounded length, random observer subsets and orders",
+                what="histories of modifications and evaluations up to a bounded length, random observer subsets and orders, with a second live model (fresh or never-modified bystander) evaluated in between",
                 note="Native to the technique: the quantifier is over histories. Oracle: fresh model rebuilt from the mutators only, and the reference model.",
                 ref="7 (C08)"),
     "C09": dict(engine="session", tech="deterministic simulation of assignment histories with rejected operations as faults",
-                what="sequences of parameter assignments in mixed formats with must-reject operations interleaved",
+                what="sequences of parameter assignments in mixed formats (names, model symbols, caller-made symbols) with must-reject operations (unknown, reserved, state and near-miss names; wrong lengths) interleaved",
                 note="Narrow relaxation after a rejected dict update (either-value mark on names it mentioned).", ref="7 (C09)"),
     "C10": dict(engine="jump+solver", tech="deterministic simulation (R seam paths, I seam integrations) + exact symbolic sums",
                 what="transition-only models x routes x streams x integrators",
                 note="Stochastic clause is native (every path, adversarial stream included); deterministic clauses are class B.", ref="7 (C10)"),
     "C11": dict(engine="jump", tech="deterministic simulation with adversarial Poisson tail counts and clocks",
-                what="event models with lower/upper/two-sided/absent limits x algorithms x adversarial streams",
+                what="event models (also with explicit ODE drift under tau-leap) with lower/upper/two-sided/zero/absent limits x algorithms x adversarial streams",
                 note="The tail-count fault is what exercises the guard; natural streams almost never do.", ref="7 (C11)"),
     "C12": dict(engine="session", tech="deterministic simulation of construction histories (route x order) + reference comparison",
                 what="process sets x route assignments x insertion orders x declaration styles",
